@@ -23,8 +23,9 @@
            trainable instances), built_pipeline_config_frozen (configuration part: unconditionally)
    * "Components likewise leave the item lists they are given unchanged"
         -> run_and_train_leave_data_alone_partial (in the model running writes nothing and training writes
-           component instances only; that the shipped components do not write through their ItemList
-           arguments is checked by the oracle on every component call, not proved) *)
+           component instances only) and components_do_not_write_itemlists (a syntactic scan of every component
+           __call__, regenerated from the source); that the shipped components really leave their ItemList
+           arguments unchanged is checked by the oracle on every component call, not proved) *)
 From Coq Require Import String List Bool.
 From LK Require Import Lib.StrDict Gen.C14_alias Model.C14_heap Proofs.C14_heap Proofs.C14_frozen Proofs.C14_main.
 Import ListNotations.
@@ -64,6 +65,12 @@ Theorem run_and_train_leave_data_alone_partial : forall s j label codes,
   st_pipes (step s (PTrain j label codes)) = st_pipes s.
 Proof. exact run_train_readonly_l. Qed.
 Print Assumptions run_and_train_leave_data_alone_partial.
+
+(* regenerated scan of the source: no component __call__ assigns through an ItemList parameter, through a local bound
+   to its contents without a copy, or calls an in-place method on either *)
+Theorem components_do_not_write_itemlists : itemlist_param_writes = [].
+Proof. exact no_itemlist_writes_l. Qed.
+Print Assumptions components_do_not_write_itemlists.
 
 (* non-vacuity: a dataset and a pipeline are built; then the pipeline is modified and rewired, cloned and the clone
    trained, the producing builders keep being used, a builder derived from the dataset adds a class -- the history
